@@ -118,10 +118,10 @@ Definition MQPost (c : caller) (fr fr' : option frame) (o : qout) (i : info) (n 
 Definition msound_query (f : nat) : Prop :=
   forall inp X Y stk c fr n s o fr' ms s',
     MInv p rk sB (X ++ Y) inp s -> StkOk rk stk n -> (is_cq c = false -> stk = []) ->
-    MNPq c n s -> MFrPre c fr n s -> XMode c X -> QPreS c n Y s ->
+    MNPq c n s -> XMode c X -> QPreS c n Y s ->
     mquery f stk c fr n s = Ok (o, fr', ms, s') ->
     MInv p rk sB X inp s' /\ (is_cq c = true -> MKeeps s s') /\ ms = [] /\
-    exists i, get_info s' n = Some i /\ i_verified i = s_ts s' /\ MQPost c fr fr' o i n.
+    exists i, get_info s' n = Some i /\ i_verified i = s_ts s' /\ (MFrPre c fr n s -> MQPost c fr fr' o i n).
 
 (** what [execute] and [repair] leave: the node verified, possibly with a window of its own *)
 Definition XPost (X : list node) (inp : menv) (c : caller) (n : node) (s' : state) : Prop :=
@@ -171,7 +171,7 @@ Proof.
   - destruct (mquery f [] CRepairFirewall None t s) as [[[[o fr'] m'] s1]| | |] eqn:Eq; try discriminate.
     pose proof (mono_q f _ _ _ _ _ _ _ _ _ Eq) as M1.
     destruct (IHq inp [] [] [] CRepairFirewall None t s o fr' m' s1 HI (StkOk_nil rk t) (fun _ => eq_refl)
-                I eq_refl eq_refl
+                I eq_refl
                 (or_introl eq_refl) Eq) as (HI1 & _ & _ & i & Hi & Hv & _).
     destruct (IH s1 s' HI1 H) as (HI2 & V2).
     assert (M2 : MonoR [] s1 s') by (eapply mmono_tfc; [apply mono_q|exact H]).
@@ -191,7 +191,7 @@ Proof.
     pose proof (mono_q f _ _ _ _ _ _ _ _ _ Eq) as M1.
     assert (HI0 : MInv p rk sB (X ++ []) inp s) by (rewrite app_nil_r; exact HI).
     destruct (IHq inp X [] [] CBPP None q s o fr' m' s1 HI0 (StkOk_nil rk q) (fun _ => eq_refl)
-                (Hk q (or_introl eq_refl)) eq_refl I (or_introl eq_refl) Eq) as (HI1 & _ & _ & i & Hi & Hv & _).
+                (Hk q (or_introl eq_refl)) I (or_introl eq_refl) Eq) as (HI1 & _ & _ & i & Hi & Hv & _).
     destruct (IH s1 s' HI1 (fun x Hx => Hk x (or_intror Hx)) H) as (HI2 & M2 & V2).
     split; [exact HI2|]. split; [eapply MonoR_trans; eauto|].
     intros x [<-|Hx]; [|apply V2; exact Hx]. eapply sverified_mono; [exact M2|]. exists i. auto.
@@ -424,8 +424,9 @@ Proof.
         assert (HIa : MInv p rk sB (X ++ []) inp s) by (rewrite app_nil_r; exact HI).
         destruct (IHq inp X [] (n :: stk) (CQuery n false pcal []) (Some fr) cal s o fr1 m1 s' HIa
                     (StkOk_lower _ _ _ _ Hstk Hrkc) (fun K => ltac:(discriminate K)) Hnpq
-                    (ex_intro _ fr (conj eq_refl (conj Hscc Htfc))) Hxm (or_introl eq_refl) Eq)
-          as (HI' & HK' & -> & ci & Hci & Hv & x' & -> & Sx & Tx).
+                    Hxm (or_introl eq_refl) Eq)
+          as (HI' & HK' & -> & ci & Hci & Hv & HP).
+        destruct (HP (ex_intro _ fr (conj eq_refl (conj Hscc Htfc)))) as (x' & -> & Sx & Tx).
         specialize (HK' eq_refl).
         rewrite Hci in H.
         assert (Vc : sverified s' cal) by (exists ci; auto).
